@@ -268,7 +268,7 @@ func init() {
 			}
 			return cs
 		}
-		for it := 0; it < 4000; it++ {
+		for it := 0; it < 4000*scale; it++ {
 			lower := it%2 == 0
 			db := &database.Database{Commands: randCmds(1+rng.Intn(9), lower)}
 			tag := fmt.Sprintf("random[%d]", it)
